@@ -12,6 +12,9 @@ import (
 
 // Clause is one specification expression with its attribution.
 type Clause struct {
+	// Abstract: a definitional postcondition "result == f(args)" with f uninterpreted: assumed by
+	// callers (the function is deterministic in its arguments), not an obligation of the body.
+	Abstract bool
 	Expr  SExpr
 	Text  string
 	Props []string // property ids this clause is counted under (empty = the function's props)
@@ -81,7 +84,17 @@ type SpecFn struct {
 	Src    string
 }
 
+// GlobalInv is an invariant of a package-level variable that is only written by
+// its package's initialisation ("frozen"); proved on the package initialiser,
+// assumed everywhere else.
+type GlobalInv struct {
+	Pkg    string // short package path
+	Name   string
+	Clause Clause
+}
+
 type Specs struct {
+	GlobalInvs []GlobalInv
 	Contracts map[string]*Contract
 	Ghosts    []*GhostVar
 	Fns       map[string]*SpecFn
@@ -94,7 +107,7 @@ var clauseKeywords = map[string]bool{
 	"func": true, "ghost": true, "spec": true, "axiom": true, "arith": true, "requires": true, "ensures": true,
 	"assigns": true, "loop": true, "callsite": true, "trusted": true, "assumed": true, "inline": true, "pure": true,
 	"noreturn": true, "model": true, "safety": true, "case": true, "props": true, "assert": true, "verified-external": true,
-	"params": true, "endcase": true,
+	"params": true, "endcase": true, "global": true, "abstracts": true, "lemma": true,
 }
 
 // LoadSpecs reads every contract source: //@ lines of zz_contracts_verif.go files
@@ -125,6 +138,21 @@ func LoadSpecs(repo string, specDir string) (*Specs, error) {
 		if err := sp.loadFile(f, strings.HasSuffix(f, ".go")); err != nil {
 			return nil, err
 		}
+	}
+	// package initialisers must establish the global invariants
+	for _, gi := range sp.GlobalInvs {
+		name := gi.Pkg + ".init"
+		c := sp.Contracts[name]
+		if c == nil {
+			c = &Contract{Func: name, Loops: map[string]*LoopSpec{}, Src: gi.Clause.Src, NoPanic: true, Arith: []string{"bv"}, Kind: "init"}
+			sp.Contracts[name] = c
+		}
+		for _, p := range gi.Clause.Props {
+			if !hasProp(c.Props, p) {
+				c.Props = append(c.Props, p)
+			}
+		}
+		c.Ensures = append(c.Ensures, gi.Clause)
 	}
 	return sp, nil
 }
@@ -235,6 +263,55 @@ func (sp *Specs) loadFile(path string, goFile bool) error {
 			}
 			sp.Fns[fn.Name] = fn
 			sp.FnOrder = append(sp.FnOrder, fn.Name)
+		case "global":
+			// global <pkg>.<name> [props Cxx ...]: invariant <expr>
+			i := strings.Index(rest, ": invariant")
+			if i < 0 {
+				return fail(fmt.Errorf("global <pkg.name> [props ...]: invariant <expr>"))
+			}
+			head := strings.Fields(rest[:i])
+			cl, err := parseClause(strings.TrimSpace(rest[i+len(": invariant"):]), src)
+			if err != nil {
+				return fail(err)
+			}
+			if len(head) > 2 && head[1] == "props" {
+				cl.Props = head[2:]
+			}
+			j := strings.LastIndex(head[0], ".")
+			if j < 0 {
+				return fail(fmt.Errorf("global needs pkg.name"))
+			}
+			sp.GlobalInvs = append(sp.GlobalInvs, GlobalInv{Pkg: head[0][:j], Name: head[0][j+1:], Clause: cl})
+		case "lemma":
+			// lemma <name> [arith int|bv] [props Cxx ...]: <expr>
+			i := strings.Index(rest, ":")
+			if i < 0 {
+				return fail(fmt.Errorf("lemma <name> [arith m] [props ...]: <expr>"))
+			}
+			head := strings.Fields(rest[:i])
+			if len(head) == 0 {
+				return fail(fmt.Errorf("lemma needs a name"))
+			}
+			cl, err := parseClause(strings.TrimSpace(rest[i+1:]), src)
+			if err != nil {
+				return fail(err)
+			}
+			c := &Contract{Func: "lemma:" + head[0], Loops: map[string]*LoopSpec{}, Src: src, Kind: "lemma", Arith: []string{"int"}}
+			for k := 1; k < len(head); k++ {
+				switch head[k] {
+				case "arith":
+					if k+1 < len(head) {
+						c.Arith = []string{head[k+1]}
+						k++
+					}
+				case "props":
+					c.Props = head[k+1:]
+					k = len(head)
+				}
+			}
+			c.Ensures = []Clause{cl}
+			sp.Contracts[c.Func] = c
+			cur = nil
 		case "axiom":
 			cl, err := parseClause(rest, src)
 			if err != nil {
@@ -272,6 +349,13 @@ func (sp *Specs) loadFile(path string, goFile bool) error {
 				} else {
 					cur.Ensures = append(cur.Ensures, cl)
 				}
+			case "abstracts":
+				cl, err := parseClause(rest, src)
+				if err != nil {
+					return fail(err)
+				}
+				cl.Abstract = true
+				cur.Ensures = append(cur.Ensures, cl)
 			case "assert":
 				cl, err := parseClause(rest, src)
 				if err != nil {
